@@ -446,3 +446,30 @@ mod test {
         emitter.dump(&parsed[0]).unwrap();
     }
 }
+
+/// Verification hooks (feature `verif-hooks`): wrappers over the private helpers of this module.
+#[cfg(feature = "verif-hooks")]
+#[allow(missing_docs)]
+pub mod verif_hooks {
+    #[must_use]
+    pub fn need_quotes(string: &str) -> bool {
+        super::need_quotes(string)
+    }
+
+    #[must_use]
+    pub fn escape_str(string: &str) -> String {
+        let mut out = String::new();
+        super::escape_str(&mut out, string).expect("writing to a String cannot fail");
+        out
+    }
+
+    #[must_use]
+    pub fn is_valid_literal_block_scalar(string: &str) -> bool {
+        crate::char_traits::is_valid_literal_block_scalar(string)
+    }
+
+    #[must_use]
+    pub fn parse_f64(string: &str) -> Option<f64> {
+        crate::loader::parse_f64(string)
+    }
+}
